@@ -10,7 +10,7 @@ var explainMore = map[string]string{
 	"C04": " Also: the tabled digit-stripping loop of Reduce is dominated by a test excluding zero.",
 	"C07": " Also: on both word sizes BigInt's inline array is handled whole (digit counts rely on BitLen).",
 	"C08": " Also: setExponent (which derives flags from Coeff/Exponent) is only reached with a receiver known to be finite, so an infinity's leftover digits are never reported as conditions.",
-	"C09": " Also: quantize rounds its exponent-shifted intermediate value under a private context with the package MinExponent.",
+	"C09": " Also: quantize rounds its exponent-shifted intermediate value under a private context with the package MinExponent and MaxExponent.",
 	"C12": " Also: Exp hands its operand only to exact methods before the 10^t amplification.",
 	"C14": " Also, for Format: the padding width subtracts the lengths of the very sign and buffer written, and zero padding follows the sign.",
 	"C15": " Also: adjusted exponents are compared only where the Sign() tests on every path (or at every call site of a helper) exclude zero operands.",
@@ -62,7 +62,7 @@ func init() {
 		"Decides: every exported Context operation tests all its operands for NaN first and returns setAsNaN with the same operands; setAsNaN's selection order and signaling behaviour (path enumeration); NaN results and invalid-class flags are paired both ways, DivisionByZero with infinity; copied unsigned specials/zeros get their sign from the operands; the exact-zero sum sign is c.Rounding == RoundFloor; a NaN the library generates never takes a sign afterwards.",
 		[]string{"the complete result table for finite × special operand combinations beyond these pairings"})
 	prop("C09", "Quantize and RoundToIntegral produce the requested exponent, correctly rounded",
-		[]string{"C09.R1", "C09.R2", "C09.R3", "C09.R4", "C09.R5", "C09.R6", "C09.R7", "C09.R8", "C20.R2", "C01.R5", "C04.R6"},
+		[]string{"C09.R1", "C09.R2", "C09.R3", "C09.R4", "C09.R5", "C09.R6", "C09.R7", "C09.R8", "C20.R2", "C01.R5", "C04.R6", "C09.R9"},
 		"Decides: every digit-dropping path in quantize consults the rounding mode; the last exponent store before every non-system return of quantize is the requested exponent; Quantize yields NaN under each of its five guards; RoundToIntegralValue masks exactly Inexact|Rounded and Exact nothing, both quantize to exponent 0 behind the specials prologue; Ceil/Floor adjust by one only under the strict sign test of the fraction; quantize refuses an exponent gap only for non-zero values.",
 		[]string{"correctness of the rescaled coefficient and the 0.9→1.0 fix-up arithmetic"})
 	prop("C10", "Integer division and remainder satisfy the division identity",
